@@ -1,5 +1,6 @@
 import LabtechModel.Props.C10
 import LabtechModel.Proofs.InvRef
+import LabtechModel.Proofs.OSet
 /-!
 # C01 — run_tasks returns exactly each requested task's own computed result
 
@@ -253,5 +254,110 @@ theorem returns_reference_values_from_C10 (cfg : Config) (p : Problem) (store : 
   · intro t ht
     obtain ⟨i, _, rfl⟩ := List.mem_map.mp ht
     exact (reference_is_failure_aware_reference cfg p store obj H hS i).2
+
+end Lt.Props.C01
+
+/-! ## `labtech.utils.OrderedSet`, the container behind "in request order, each at most once"
+
+The run model (`Model/Run.lean`) writes `dedup` wherever the code builds an `OrderedSet` (`TaskState.pending_tasks`,
+`get_direct_dependencies`, the sets `complete_task` returns). `Model/OSet.lean` models the class itself - a dict from
+key object to stored object, elements with an equality class `cls` and an object identity `ident` - and the theorems
+below say what it computes: (a) never two keys of one class, (b) `OrderedSet(items)` keeps the FIRST object of every
+class in first-occurrence order, which on classes is exactly `dedup`, (c) membership = added and not removed since,
+(d) `a + b` = `OrderedSet(list(a) + list(b))`, `len` = number of distinct classes, (e) `remove` raises exactly when the
+class is absent, and a removed class that is added again goes to the end. The `OSET` driver word runs this model
+against the real class on generated operation sequences (harness/osetrun.py). -/
+namespace Lt.Props.C01
+open Lt Lt.OSet
+
+/-- (a) whatever sequence of constructor calls, `add`, successful `remove` and `+` produced a set, its key objects
+    have pairwise different equality classes -/
+theorem oset_keys_distinct (s : OSet) (h : Built s) : (s.toList.map Elem.cls).Nodup := built_wf h
+
+/-- (a) the same for a sequence of `add` / `remove` calls (a `remove` that raises leaves the set unchanged) -/
+theorem oset_keys_distinct_after_ops (s : OSet) (ops : List Op) (h : (s.toList.map Elem.cls).Nodup) :
+    ((runOps s ops).toList.map Elem.cls).Nodup := wf_runOps ops s h
+
+/-- (b) iterating `OrderedSet(items)` yields the first occurrence of every class, in order -/
+theorem oset_ofList_first_occurrences (l : List Elem) : (ofList l).toList = firstOcc l := by
+  rw [toList_ofList, foldl_kins_nil]
+
+/-- (b) on equality classes that is the `dedup` of the run model -/
+theorem oset_ofList_is_dedup (l : List Elem) : (ofList l).toList.map Elem.cls = dedup (l.map Elem.cls) := by
+  rw [oset_ofList_first_occurrences, firstOcc_cls]
+
+/-- (b) the object that comes out for a class is the FIRST object of that class in `items` -/
+theorem oset_ofList_first_identity (l : List Elem) (c : Nat) :
+    (ofList l).toList.find? (fun y => y.cls == c) = l.find? (fun y => y.cls == c) := by
+  rw [oset_ofList_first_occurrences, firstOcc_find]
+
+/-- (c) after a sequence of `add` / `remove` calls an object is `in` the set iff some `add` of its class is followed by
+    no `remove` of its class, or it was in the set before and its class was never removed -/
+theorem oset_mem_after_ops (s : OSet) (ops : List Op) (x : Elem) :
+    (runOps s ops).mem x = true ↔
+      (∃ pre e post, ops = pre ++ Op.add e :: post ∧ e.cls = x.cls ∧ NoRem x.cls post) ∨
+      (s.mem x = true ∧ NoRem x.cls ops) := by
+  rw [mem_runOps, live_iff]
+
+/-- (c) membership is by class: in `OrderedSet(items)` iff an object of the class is in `items`; in `a + b` iff in
+    `a` or in `b`; and `in` agrees with what iteration yields -/
+theorem oset_mem_by_class (l : List Elem) (a b s : OSet) (x : Elem) :
+    ((ofList l).mem x = true ↔ x.cls ∈ l.map Elem.cls) ∧
+    ((a + b).mem x = (a.mem x || b.mem x)) ∧
+    (s.mem x = true ↔ x.cls ∈ s.toList.map Elem.cls) :=
+  ⟨by rw [mem_ofList, hasCls_iff], mem_plus a b x, by rw [mem, hasCls_iff]⟩
+
+/-- (d) `a + b` iterates like `OrderedSet(list(a) + list(b))` -/
+theorem oset_plus_is_ofList_concat (a b : OSet) : (a + b).toList = (ofList (a.toList ++ b.toList)).toList := by
+  rw [toList_plus, toList_ofList]
+
+/-- (d) for sets built through the interface: all of `a`'s key objects, then `b`'s key objects whose class is new -
+    `a`'s object wins the identity of a shared class -/
+theorem oset_plus_self_keys_first (a b : OSet) (ha : Built a) (hb : Built b) :
+    (a + b).toList = a.toList ++ b.toList.filter (fun y => !a.mem y) :=
+  toList_plus_wf a b (built_wf ha) (built_wf hb)
+
+/-- (d) `len` = number of distinct classes -/
+theorem oset_len_distinct_classes (l : List Elem) (a b : OSet) :
+    (ofList l).len = (dedup (l.map Elem.cls)).length ∧
+    (a + b).len = (dedup ((a.toList ++ b.toList).map Elem.cls)).length := by
+  constructor
+  · rw [len_eq, ← oset_ofList_is_dedup, List.length_map]
+  · rw [len_eq, oset_plus_is_ofList_concat, ← oset_ofList_is_dedup, List.length_map]
+
+/-- (e) `remove` raises `KeyError` exactly when no object of the class is in the set; otherwise the class is gone and the
+    other keys keep their order -/
+theorem oset_remove_fails_iff_absent (s : OSet) (e : Elem) :
+    (s.remove e = none ↔ s.mem e = false) ∧
+    (∀ s', s.remove e = some s' → s'.mem e = false ∧ s'.toList = s.toList.filter (fun y => y.cls ≠ e.cls)) := by
+  refine ⟨remove_none_iff s e, fun s' hr => ⟨?_, toList_remove s s' e hr⟩⟩
+  rw [mem_remove s s' e e hr]; simp
+
+/-- (e) `add` of a present class changes nothing that iteration shows (the OLD object stays, at its position); `add` of
+    an absent class appends; `remove` then `add` moves the class to the end, now with the new object -/
+theorem oset_add_keeps_first_and_readd_moves_to_end (s : OSet) (e : Elem) :
+    (s.mem e = true → (s.add e).toList = s.toList) ∧
+    (s.mem e = false → (s.add e).toList = s.toList ++ [e]) ∧
+    (∀ s', s.remove e = some s' → (s'.add e).toList = s.toList.filter (fun y => y.cls ≠ e.cls) ++ [e]) :=
+  ⟨toList_add_present s e, toList_add_absent s e, fun s' hr => toList_remove_add s s' e hr⟩
+
+/-! non-vacuity: `1`, `True`, `1.0` are class 1 with identities 10, 11, 12; two equal task objects are class 2 -/
+example : (ofList [⟨1, 10⟩, ⟨2, 20⟩, ⟨1, 11⟩, ⟨2, 21⟩, ⟨3, 30⟩]).toList = [⟨1, 10⟩, ⟨2, 20⟩, ⟨3, 30⟩] := by decide
+
+example : ((ofList [⟨1, 10⟩, ⟨2, 20⟩]).add ⟨1, 11⟩).toList = [⟨1, 10⟩, ⟨2, 20⟩] ∧
+    ((ofList [⟨1, 10⟩, ⟨2, 20⟩]).add ⟨1, 11⟩).stored = [⟨1, 11⟩, ⟨2, 20⟩] := by decide
+
+example : ((ofList [⟨1, 10⟩, ⟨2, 20⟩]).remove ⟨1, 12⟩).map (fun s => (s.add ⟨1, 11⟩).toList) = some [⟨2, 20⟩, ⟨1, 11⟩] ∧
+    (ofList [⟨1, 10⟩, ⟨2, 20⟩]).remove ⟨3, 12⟩ = none := by decide
+
+example : (ofList [⟨1, 10⟩, ⟨2, 20⟩] + ofList [⟨3, 30⟩, ⟨2, 21⟩, ⟨1, 11⟩, ⟨4, 40⟩]).toList
+    = [⟨1, 10⟩, ⟨2, 20⟩, ⟨3, 30⟩, ⟨4, 40⟩] ∧
+    (ofList [⟨1, 10⟩, ⟨2, 20⟩] + ofList [⟨3, 30⟩, ⟨2, 21⟩]).len = 3 := by decide
+
+example : (runOps empty [.add ⟨1, 10⟩, .rem ⟨1, 11⟩, .rem ⟨1, 10⟩, .add ⟨2, 20⟩, .add ⟨1, 12⟩, .rem ⟨2, 21⟩]).toList = [⟨1, 12⟩] ∧
+    (runOps empty [.add ⟨1, 10⟩, .rem ⟨1, 11⟩, .add ⟨2, 20⟩]).mem ⟨1, 10⟩ = false := by decide
+
+example : Built ((ofList [⟨1, 10⟩, ⟨2, 20⟩]).add ⟨1, 11⟩ + ofList [⟨2, 21⟩]) :=
+  .plus (.add _ (.ofList _)) (.ofList _)
 
 end Lt.Props.C01
